@@ -1145,3 +1145,66 @@ c06_m!(c06_m_len36_from_multipart, 36, 2);
 c06_m!(c06_m_len37_from_fixed64, 37, 1);
 c06_m!(c06_m_len37_from_multipart, 37, 2);
 c06_m!(c06_m_len8_from_fixed64, 8, 1);
+
+// =====================================================================================
+// C13.V: HashColumn::validate_plan is total on every action a checksum-valid record can carry: an action for a table
+// this column does not have (a ref-count page on a column without ref-count table, an index table older than the current
+// one that is not queued for migration, a table drop or a record marker) is refused with Corruption — never a panic — and
+// page / value payloads are handed to exactly the table the action names (table-level validation by contract: C13.P2).
+// =====================================================================================
+pub static mut VP_CALLS: usize = 0;
+pub static mut VP_KIND: u8 = 0; // 1 index, 2 value, 3 ref count
+pub static mut VP_TABLE: u16 = 0;
+pub static mut VP_INDEX: u64 = 0;
+pub fn stub_ix_validate(t: &IndexTable, index: u64, _l: &mut LogReader) -> Result<()> { unsafe { VP_CALLS += 1; VP_KIND = 1; VP_TABLE = t.id.as_u16(); VP_INDEX = index; } Ok(()) }
+pub fn stub_vt_validate(t: &ValueTable, index: u64, _l: &mut LogReader) -> Result<()> { unsafe { VP_CALLS += 1; VP_KIND = 2; VP_TABLE = t.id.as_u16(); VP_INDEX = index; } Ok(()) }
+pub fn stub_rc_validate(t: &RefCountTable, index: u64, _l: &mut LogReader) -> Result<()> { unsafe { VP_CALLS += 1; VP_KIND = 3; VP_TABLE = t.id.as_u16(); VP_INDEX = index; } Ok(()) }
+
+/// which: 0 InsertRefCount (column has no ref-count table), 1 InsertIndex for an older index that is not queued,
+/// 2 InsertIndex for the current index, 3 InsertIndex for a queued older index, 4 InsertValue, 5 record markers / drops
+fn validate_dispatch_case(which: u8) {
+	let (col, _ids) = chain_column(if which == 3 { 2 } else { 0 });
+	let index: u64 = kani::any();
+	unsafe { VP_CALLS = 0; }
+	let bits: u8 = kani::any();
+	let k: u8 = kani::any();
+	kani::assume(k < 4);
+	let r = vl::with_reader(|rd| match which {
+		0 => { kani::assume(bits >= 16 && bits <= 40); col.validate_plan(LogAction::InsertRefCount(crate::log::InsertRefCountAction { table: RefCountTableId::new(0, bits), index }), rd) },
+		1 => { kani::assume(bits >= 16 && bits < 18); col.validate_plan(LogAction::InsertIndex(crate::log::InsertIndexAction { table: IndexTableId::new(0, bits), index }), rd) },
+		2 => col.validate_plan(LogAction::InsertIndex(crate::log::InsertIndexAction { table: IndexTableId::new(0, 18), index }), rd),
+		3 => { kani::assume(bits == 16 || bits == 17); col.validate_plan(LogAction::InsertIndex(crate::log::InsertIndexAction { table: IndexTableId::new(0, bits), index }), rd) },
+		4 => { kani::assume(bits < 3); col.validate_plan(LogAction::InsertValue(crate::log::InsertValueAction { table: ValueTableId::new(0, bits), index }), rd) },
+		_ => col.validate_plan(match k { 0 => LogAction::BeginRecord, 1 => LogAction::EndRecord, 2 => LogAction::DropTable(IndexTableId::new(0, 16)), _ => LogAction::DropRefCountTable(RefCountTableId::new(0, 16)) }, rd),
+	});
+	unsafe {
+		match which {
+			0 | 1 | 5 => { assert!(matches!(r, Err(Error::Corruption(_))), "C13.V an action for a table this column does not have is refused as corruption"); assert!(VP_CALLS == 0, "C13.V a refused action validates no payload"); },
+			2 => assert!(r.is_ok() && VP_CALLS == 1 && VP_KIND == 1 && VP_TABLE == IndexTableId::new(0, 18).as_u16() && VP_INDEX == index, "C13.V an index page is validated against the current index table"),
+			3 => assert!(r.is_ok() && VP_CALLS == 1 && VP_KIND == 1 && VP_TABLE == IndexTableId::new(0, bits).as_u16() && VP_INDEX == index, "C13.V an index page of a queued older index is validated against that table"),
+			_ => assert!(r.is_ok() && VP_CALLS == 1 && VP_KIND == 2 && VP_TABLE == ValueTableId::new(0, bits).as_u16() && VP_INDEX == index, "C13.V a value entry is validated against the size tier the action names"),
+		}
+	}
+	kani::cover!(unsafe { VP_CALLS } == if which >= 2 && which <= 4 { 1 } else { 0 });
+	std::mem::forget(r); std::mem::forget(col);
+}
+macro_rules! c13_v {
+	($name:ident, $which:expr) => {
+		crate::verif_tbl! {
+			#[kani::proof]
+			#[kani::unwind(12)]
+			#[kani::stub(crate::index::IndexTable::validate_plan, stub_ix_validate)]
+			#[kani::stub(crate::table::ValueTable::validate_plan, stub_vt_validate)]
+			#[kani::stub(crate::ref_count::RefCountTable::validate_plan, stub_rc_validate)]
+			#[kani::stub(crc32fast::Hasher::internal_new_specialized, crate::verif_common::no_specialized_crc)]
+			#[kani::stub(<std::os::fd::OwnedFd as std::ops::Drop>::drop, crate::verif_common::fd_drop_noop)]
+			fn $name() { validate_dispatch_case($which) }
+		}
+	};
+}
+c13_v!(c13_v_ref_count_action_without_table, 0);
+c13_v!(c13_v_index_action_too_old, 1);
+c13_v!(c13_v_index_action_current, 2);
+c13_v!(c13_v_index_action_queued, 3);
+c13_v!(c13_v_value_action, 4);
+c13_v!(c13_v_marker_and_drop_actions, 5);
